@@ -576,7 +576,8 @@ def run(c):
     c.cov['disagreements'] = len(mismatches)
     c.notes['mismatch_examples'] = mismatches[:6]
     c.cov['oracle_failures'] = len(findings)
-    c.cov['exhaustive'] = 'all interleavings for <=3 events in total and all interleavings with <=%d blocks for <=3 producers x <=3 events; sampled beyond' % exh_blocks
+    c.cov['exhaustive'] = True
+    c.cov['exhaustive_scope'] = 'all interleavings for <=3 events in total and all interleavings with <=%d blocks for <=3 producers x <=3 events; sampled beyond' % exh_blocks
 
     # ---- classification ---------------------------------------------------------------------------------------
     for cr in crashes:
